@@ -669,6 +669,41 @@ fn resolve_fn<'tcx>(d: &mut Dumper<'tcx>, n: &Node<'tcx>, env: TypingEnv<'tcx>, 
                         let nid = d.intern(Node { inst, env_of: n.env_of });
                         fields.push(("node", J::n(nid as i128)));
                     }
+                    // conversions that std performs on our behalf: Into::into -> From::from,
+                    // `?` (from_residual) -> From::from of the error type. Local impls become may-edges.
+                    let mut extra: Vec<J> = Vec::new();
+                    if let Some(from_trait) = tcx.get_diagnostic_item(rustc_span::sym::From) {
+                        let from_method = tcx.associated_item_def_ids(from_trait).get(0).copied();
+                        let mut pairs: Vec<(Ty<'tcx>, Ty<'tcx>)> = Vec::new(); // (target U, source T)
+                        if orig_path == "std::convert::Into::into" {
+                            if let (Some(t), Some(u)) = (args.get(0).and_then(|a| a.as_type()), args.get(1).and_then(|a| a.as_type())) {
+                                pairs.push((u, t));
+                            }
+                        }
+                        if orig_path == "std::ops::FromResidual::from_residual" {
+                            if let (Some(t), Some(r)) = (args.get(0).and_then(|a| a.as_type()), args.get(1).and_then(|a| a.as_type())) {
+                                if let (ty::Adt(_, a1), ty::Adt(_, a2)) = (t.kind(), r.kind()) {
+                                    if let (Some(f), Some(e)) = (a1.get(1).and_then(|a| a.as_type()), a2.get(1).and_then(|a| a.as_type())) {
+                                        pairs.push((f, e));
+                                    }
+                                }
+                            }
+                        }
+                        if let Some(fm) = from_method {
+                            for (u, t) in pairs {
+                                let fargs = tcx.mk_args(&[u.into(), t.into()]);
+                                if let Ok(Some(fi)) = Instance::try_resolve(tcx, env, fm, fargs) {
+                                    if is_local_or_inlinable(tcx, fi) {
+                                        let nid = d.intern(Node { inst: fi, env_of: n.env_of });
+                                        extra.push(J::n(nid as i128));
+                                    }
+                                }
+                            }
+                        }
+                    }
+                    if !extra.is_empty() {
+                        fields.push(("extra_nodes", J::arr(extra)));
+                    }
                 }
                 Ok(None) => {
                     fields.push(("kind", J::s("unresolved")));
